@@ -330,6 +330,8 @@ class Engine:
         if b == "seq" and a == "seq":
             if sv.ty.elem == ty.elem:
                 return sv, None
+        if b == "set" and a == "set":
+            return SV(ty, sv.t), None
         raise Unsupported("cannot coerce %r to %r" % (sv.ty, ty))
 
     def to_obj(self, sv):
@@ -1153,6 +1155,11 @@ class Engine:
             if f is None or self.spec:
                 return [(s, mk_bool(a.t == b.t))]
             return self.call_function(f, a, [b], {}, s, recv_static=a.ty.cls)
+        if ka == "set" and kb == "set" and self.spec and a.t.sort() == b.t.sort():
+            return [(s, mk_bool(a.t == b.t))]
+        if ka == "arr" and kb == "arr" and self.spec and a.t.sort() == b.t.sort():
+            # ghost arrays in specifications: extensional equality
+            return [(s, mk_bool(a.t == b.t))]
         if ka == "tup" and kb == "tup" and self.spec and a.ty == b.ty:
             # in specifications tuple equality is structural identity of the components
             return [(s, mk_bool(self.pack(a).t == self.pack(b).t))]
@@ -1211,6 +1218,12 @@ class Engine:
             return [(s, mk_bool(z3.Contains(cont.t, item.t)))]
         if k == "emptylist":
             return [(s, mk_bool(False))]
+        if k == "set":
+            it, c = self.coerce(item, cont.ty.elem)
+            r = z3.Select(cont.t, S.enc(it))
+            if c is not None:
+                r = z3.And(c, r)
+            return [(s, mk_bool(r))]
         if k == "enumset":
             return [(s, mk_bool(z3.Or(*[item.t == v for v in cont.items])))]
         if k == "obj" and not self.spec:
@@ -1360,8 +1373,7 @@ class Engine:
         cands.sort(key=lambda c: -len(self.table.mro(c)))
         for c in cands:
             goal = z3.And(PyObj.is_O_ref(o.t), self.isinstance_ref(PyObj.rval(o.t), c))
-            st, _, _, _, _ = self.prover.check(s.pc, goal, want_model=False, timeout_ms=1500)
-            if st == "proved":
+            if self.prover.quick(s.pc, goal) == "proved":
                 return SV(REF(c), PyObj.rval(o.t))
         return None
 
@@ -1435,6 +1447,23 @@ class Engine:
                 has = z3.And(c, has)
             return self.implicit(s, "KeyError", z3.Not(has),
                                  lambda s2: [(s2, self.map_elem(s2, base, key))])
+        if k == "obj":
+            # a dynamic value the path condition proves to be a tuple / list: items are an uninterpreted
+            # function of (object, index); out-of-range index raises IndexError
+            o = base.t
+            kind = self.reg.ufun("other_kind", z3.IntSort(), z3.IntSort())
+            ln = self.reg.ufun("other_len", z3.IntSort(), z3.IntSort())
+            item = self.reg.ufun("other_item", z3.IntSort(), z3.IntSort(), PyObj)
+            is_tl = z3.And(PyObj.is_O_other(o), z3.Or(kind(PyObj.oid(o)) == 2, kind(PyObj.oid(o)) == 3))
+            if self.spec or self.prover.quick(s.pc, is_tl) == "proved":
+                i = self.coerce(idx, INT)[0].t
+                n = ln(PyObj.oid(o))
+                j = z3.If(i < 0, i + n, i)
+                if self.spec:
+                    return [(s, SV(OBJ, item(PyObj.oid(o), j)))]
+                s.assume(n >= 0)
+                return self.implicit(s, "IndexError", z3.Or(j < 0, j >= n),
+                                     lambda s2: [(s2, SV(OBJ, item(PyObj.oid(o), j)))])
         raise Unsupported("subscript of %r" % (base.ty,))
 
     def seq_elem(self, st, base, j):
@@ -1470,6 +1499,20 @@ class Engine:
         if hook is None:
             raise Unsupported("dict comprehension")
         return hook(self, node, st)
+
+    def ev_Set(self, node, st):
+        # set display {a, b}: membership only (iteration over a set is a process-varying effect and unsupported)
+        outs = []
+        for s, vals in self.ev_seq(node.elts, st):
+            if isinstance(vals, Raise):
+                outs.append((s, vals))
+                continue
+            et = vals[0].ty
+            arr = z3.K(S.elem_sort(et), z3.BoolVal(False))
+            for v in vals:
+                arr = z3.Store(arr, S.enc(v), z3.BoolVal(True))
+            outs.append((s, SV(Ty("set", elem=et), arr, const="fresh")))
+        return outs
 
     def ev_Dict(self, node, st):
         if not node.keys:
